@@ -1479,6 +1479,9 @@ func genE2E(p core.Params) *e2eScript {
 		if class == "yieldfill" {
 			groups = 2
 		}
+		if class == "activeonly" {
+			groups = 0 // the owner module says nothing more: whatever it is to receive, the device module says on its yield
+		}
 		for g := 0; g < groups; g++ {
 			nm := 1 + rng.Intn(3)
 			for k := 0; k < nm; k++ {
@@ -1531,6 +1534,7 @@ func genE2E(p core.Params) *e2eScript {
 			y := 1 + rng.Intn(2)
 			if class == "activeonly" {
 				y = 1
+				o.linger = 3
 			}
 			d.onYield[y] = append(d.onYield[y], mkSend(fmt.Sprintf("y%d%d", i, y), true))
 		}
@@ -1816,6 +1820,10 @@ func checkE2E(o *e2eObs) {
 		}
 		if len(d.trans) != 1 || !d.trans[0] {
 			o.fail("received-before-activation", "device module %s saw transitions %v, expected exactly one activation", d.name, d.trans)
+		}
+		if sc.class == "activeonly" && d.yields == 0 {
+			// the owner module only activated it and then waited (three more rounds): the floor goes to the activated module
+			o.fail("activated-module-never-yielded-to", "device module %s was activated in a round that carried nothing else, the owner module then waited %d rounds, and the device never yielded to it (what it has to say was never asked for)", d.name, om.linger)
 		}
 		if len(om.actives) != 1 || !bytes.Equal(om.actives[0], []byte{0xf5}) {
 			sig := "active-answer-wrong"
